@@ -1,6 +1,7 @@
 """C18 - cw20-ics20: the token allow-list is governance-only and only ever loosens."""
 from ..engine import show, OPTION
-from ..idioms import dispatch, entry_points, loaded_from, nf, walk, response_entries, NF, update_base, field_of
+from ..idioms import dispatch, entry_points, loaded_from, nf, walk, response_entries, NF, update_base, field_of, controller_admin_guard
+from ..prims import is_rmw
 from .icscommon import CRATE, SENDER, items, payout_parts
 
 ID = "C18"
@@ -51,8 +52,7 @@ def run(ctx):
                             ctx.ob("R18.1", key + "/initial list", True, trivial=True)
                             continue
                         n_allow += 1
-                        g = any(c[0][0] == "call" and c[0][1] == "Admin::assert_admin" and c[0][2][0] == ADMIN and c[0][2][-1] == SENDER
-                                and c[1] == "Ok" and c[3] <= i for c in p.conds)
+                        g = controller_admin_guard(p, ADMIN, SENDER, before=i)
                         ctx.ob("R18.1", key + "/write in %s" % e.site[2].split("::")[-1], g, sites=[e.site],
                                detail="ALLOW_LIST written without ADMIN.assert_admin(deps, info.sender) = Ok before the write",
                                sample={"guard": "assert_admin(info.sender)"})
@@ -104,10 +104,10 @@ def run(ctx):
 
 def check_allow(ctx, p, key, e):
     req = ("field", ("vfield", ("param", "msg"), "Allow", "0"), "gas_limit")
-    good = e.op == "update" and e.value[0] == "struct" and dict(e.value[2]).get("gas_limit") == req
+    good = is_rmw(e) and e.op != "remove" and e.value[0] == "struct" and dict(e.value[2]).get("gas_limit") == req
     ctx.ob("R18.2", key + "/stores the requested limit", good, sites=[e.site],
            detail="Allow stores %s, not AllowInfo{gas_limit: requested}" % show(e.value)[:160], sample={"value": show(e.value)[:120]})
-    if e.op != "update":
+    if not is_rmw(e) or e.op == "remove":
         return
     present = [c[1] for c in p.conds if c[0] == e.old]
     if present != ["Some"]:
